@@ -56,6 +56,17 @@ Theorem C15_continuation : forall (m : Z) (a : alg) (rw : Z -> Z) (evs : list Z)
 Proof. exact recover_continuation. Qed.
 Print Assumptions C15_continuation.
 
+(* By name: Sweeping, Random(seed), regularized evolution (Last n), hill climb (Top 1), NEAT's newest-generation
+   update — alone and under Deduping with any parameters. *)
+Theorem C15_shipped_algorithms : forall (m : Z) (a : alg) (rw : Z -> Z) (evs : list Z), shipped a ->
+  (let g := denote m a in let r := run_events g rw evs in
+   r_ok g r = true -> pview (obs g (recovered g (r_hist g r))) = pview (obs g (r_st g r))) /\
+  (forall hm auto maxdup maxatt,
+   let g := denote m (ADedup a hm auto maxdup maxatt) in let r := run_events g rw evs in
+   r_ok g r = true -> pview (obs g (recovered g (r_hist g r))) = pview (obs g (r_st g r))).
+Proof. exact shipped_recover. Qed.
+Print Assumptions C15_shipped_algorithms.
+
 (* The Deduping wrapper preserves recoverability of ANY generator it wraps (not only those of the syntax). *)
 Theorem C15_dedup_wrapper : forall (g : gen) (m : Z) (hm auto maxdup maxatt : nat),
   obs_rec g anyfed HRw -> meta_pres g -> obs_rec (Deduping g m hm auto maxdup maxatt) keyfed HRk.
